@@ -283,9 +283,9 @@ def run_a8(chk, A8, repo):
                               'NM-TRAN keeps CL = 1 when X = 1')
 
 
-def run_a9(chk, A9, repo):
+def run_a9(chk, A9, repo, modname='pharmpy.model.external.nonmem.advan', minimum=3):
     """existence guard and use name the same symbol"""
-    m = repo.module('pharmpy.model.external.nonmem.advan')
+    m = repo.module(modname)
     n = 0
     for f in m.functions.values():
         for I in [x for x in walk_no_nested(f.node) if isinstance(x, ast.If)]:
@@ -307,5 +307,5 @@ def run_a9(chk, A9, repo):
                                   f'`{syms[0]}`', line=I.lineno,
                                   witness='ADVAN4 with observations in CMT=2 and CMT=3 and S2, S3 defined: the CMT=3 prediction '
                                           'is scaled by S2')
-    if n < 3:
-        raise AnalysisError(f'A9: only {n} guarded symbol uses found in advan.py')
+    if n < minimum:
+        raise AnalysisError(f'{A9}: only {n} guarded symbol uses found in {modname}')
